@@ -56,7 +56,7 @@ def run(tier, seed):
             bias = [0.9, 0.7, 1.0][i % 3]
             t = gennb.gen_triple(r, conflict_bias=bias, minor=r.choice([0, 1, 2, 3, 4, 5, 5]) if i % 2 else None)
             gen.append({'b': t[0], 'l': t[1], 'r': t[2], 'src': 'gen'})
-        crafted = K.record_touched_triples() + K.minor_upgrade_triples() + K.crafted_triples(r, 40 if tier == 'quick' else 400, gennb)
+        crafted = K.record_touched_triples() + K.minor_upgrade_triples() + K.concurrent_output_insert_triples() + K.crafted_triples(r, 40 if tier == 'quick' else 400, gennb)
         full = corpus + fixtures + crafted + gen[:n_full]
         few = gen[n_full:]
         few_cfgs = K.pick_few(cfgs, r)
